@@ -1378,8 +1378,8 @@ condexpr(struct scope *s)
 		}
 	}
 	e = eval(e);
-	if (e->kind == EXPRCONST && e->type->prop & PROPINT)
-		return exprvalue(exprconvert(e->u.constant.u ? l : r, t));
+	if (e->kind == EXPRCONST && e->type->prop & PROPARITH)
+		return exprvalue(exprconvert((e->type->prop & PROPFLOAT ? e->u.constant.f != 0 : e->u.constant.u != 0) ? l : r, t));
 	e = mkexpr(EXPRCOND, t, e);
 	e->u.cond.t = l;
 	e->u.cond.f = r;
